@@ -184,6 +184,16 @@ def render(case, workdir):
         prots.append({"name": prefix + tnames[t], "base": tnames[t], "decoy": True,
                       "peps": sorted(int(q) + m for q in inc[t])})
         entries[len(prots)] = (prefix + tnames[t], dseqs[t])
+    if mode in ("none", "partial", "mirror") and case["seed"] % 3 == 0:
+        # a decoy entry built from TARGET peptides (peptides that read the same in both directions, low-complexity sequence):
+        # its peptide set lies inside a target's; grouping goes by peptide sets, whatever the kind of the entries
+        free = [t for t in range(n) if t not in dseqs]
+        cand = [i for i in range(n) if len(inc[i]) >= 1]
+        if free and cand:
+            j, i = free[0], cand[case["seed"] % len(cand)]
+            sub = sorted(int(q) for q in inc[i])[: max(1, len(inc[i]) // 2)]
+            prots.append({"name": prefix + tnames[j], "base": tnames[j], "decoy": True, "peps": sub})
+            entries[len(prots)] = (prefix + tnames[j], "".join(tp[q - 1] for q in sub))
     pepid = {s: k + 1 for k, s in enumerate(tp)}
     pepid.update({s: m + k + 1 for k, s in enumerate(dp)})
     accid = {p["name"]: k + 1 for k, p in enumerate(prots)}
@@ -227,6 +237,10 @@ def write_files(case, r, order, workdir, tag):
             chunks.append(head + "\n" + "\n".join(seq[k:k + width] for k in range(0, len(seq), width)))
         else:
             chunks.append(head + "\n" + seq)
+    if case["seed"] % 5 == 0 and len(chunks) >= 2:
+        # the same entry (identifier and sequence) a second time, at the end: a contaminants file read together with a database
+        # that already holds the protein -- it is still one protein
+        chunks.append(chunks[len(chunks) // 2])
     split = len(chunks) >= 2 and fmt["split"]
     # the same file names are re-used by every case a worker process handles (a result must not depend on what a path held before)
     # (the files of the hash-seed runs, tag "h", are all written before the worker sessions read them: one name per case there)
